@@ -92,6 +92,14 @@ def run_conc(u, params, given=None, rng=None, timeout=20):
 
 
 def job(args):
+    """worker entry: the code under test may print; keep the check's stdout clean"""
+    import contextlib
+    import io
+    with contextlib.redirect_stdout(io.StringIO()):
+        return _job(args)
+
+
+def _job(args):
     """worker: one (unit, params) symbolic run + replays + sampling"""
     prop, uname, pidx, tier, seed = args
     sys.setrecursionlimit(3000)
